@@ -98,7 +98,7 @@ PROPS = {
     },
     "C04": {
         "translate": True,
-        "diff_is_violation": False,
+        "diff_is_violation": True,
         "trivial": ["bad-request", "start:reject"],
         "rule": "streams: (1) corpus; (2) the gate alone: 14 fixed documents (empty, built, dangling / foreign references, ids with path and query, the same reference in several relationships, and 9 that must be refused: duplicate general methods, general = embedded id, embedded = reference id in either order, two embedded with one id, service = method id, service = reference id, duplicate reference in one set, duplicate services) through JSON and through DocumentBuilder, plus 1500 (20000) random collections over 2 DIDs x 3 path/query forms x 3 fragments (references without fragment included), each followed by the state and a resolution battery (every id of the universe as full id and as bare fragment x no scope / VerificationMethod / 5 relationships, services, methods(scope)); (3) 600 (12000) random histories of 1..12 (every tenth: ..40) operations (insert_method in all 6 scopes, attach/detach in 4 query forms, remove_method, insert/remove_service) from fixed and random start documents, state + battery after EVERY step; (4) exhaustive histories of depth 2 (3) over 68 operations on 4 ids chosen for collisions (same DID+fragment with/without path, foreign DID with the same fragment) from 4 (2) start documents, state after every step and battery at the end. Implementation-side oracle after every mutation: the three id clauses of the statement computed from the accessors, from_json(to_json(doc)) == doc, refused => unchanged, the four query forms agree pairwise. Non-trivial = start document accepted; distinct request lines.",
         "trusted_base": ["ids are abstract (DID, path/query form, fragment); DIDUrl parsing/printing is C10's model", "the HashMap of check_id_constraints is a function Id -> Option Bool", "method and service contents other than the id are an opaque body", "serde_json and the serde derive glue of CoreDocumentData (tied by the round-trip oracle and by the gate stream)", "IotaDocument delegates to CoreDocument for every operation here and is exercised by the C09/C14 streams, not this one"],
